@@ -143,7 +143,7 @@ def run(chk, replay=None):
     chk.assumptions += [
         'universe: 2 models, 3 components (two identical), 3 variables (two identical), 2 identical units, 2 identical resets; null pointers, out-of-range indices and unknown names are part of the operation alphabet',
         'structural equality used by pointer lookups is a parameter of the theorems; the engine instantiates it with the C10 model evaluated on the heap',
-        'partial: memory safety (null / dangling dereference) is runtime behaviour — the model says "refused, unchanged", a crash of the harness is reported with the history as replay; owner release is modelled for variables that no component owns (`rel`: the object dies and its entries in other variables\' weak equivalence lists expire; the identifier is reused for a fresh variable); release of other objects and the service entry points (annotator, importer, analyser) are not part of this engine',
+        'partial: memory safety (null / dangling dereference) is runtime behaviour — the model says "refused, unchanged", a crash of the harness is reported with the history as replay; owner release is modelled for variables that no component owns (`rel`: the object dies and its entries in other variables\' weak equivalence lists expire; the identifier is reused for a fresh variable); release of other objects is not part of this engine; the service entry points (validator, analyser and its external variables, analyser-model queries, generator, annotator, importer, printer) and the getters / mutators of the object model are audited with null pointers, entities never added to a model, entities whose owner is destroyed, out-of-range indices and unknown names by harness/hx_badargs.cpp (each probe in a child process: must return, must refuse)',
         'adding an entity to the container that already holds it is outside the claim (existing tests pin the double listing): the oracle stops at such a step, the correspondence continues']
     chk.cov['trusted_base'] += ['harness/hx_heap.cpp, lean/Cellml/Engine/Heap.lean', 'python history generator and graph oracle (checks/C09.py)']
     if not ok:
@@ -224,6 +224,20 @@ def run(chk, replay=None):
                         'after every operation the whole object graph is dumped and compared; one evaluation = one operation' % len(alpha),
                    samples=[lines[5], impl[5][:200], lines[-1][:200]], traces_validated_against_impl=len(lines) - len(disagree), exhaustive=False,
                    histories=len(lines), alphabet=len(alpha), histories_outside_claim=tainted, crashed_histories=len(crashed))
+    # the services that accept entities, with null pointers, entities never added to a model, entities whose owner is destroyed,
+    # out-of-range indices and unknown names (each probe in a child process of harness/hx_badargs.cpp)
+    if not replay:
+        hb = build_hx('hx_badargs', lib)
+        r = subprocess.run([hb], capture_output=True, text=True, timeout=1200)
+        probes = [l.split('\t') for l in r.stdout.split('\n') if '\t' in l]
+        chk.cov['bad_argument_probes'] = {'probes': len(probes), 'ok': sum(1 for p in probes if p[1] == 'ok'), 'names': [p[0] for p in probes]}
+        if len(probes) < 30:
+            chk.violation('the bad-argument audit did not run to its end: %d probes reported' % len(probes), {'kind': 'crash', 'engine': 'badargs', 'output': r.stdout[-2000:]}, False)
+        for name, res in probes:
+            if res != 'ok':
+                what = {'accepted': 'accepts an argument it must refuse (or reports nothing)', 'hang': 'does not return'}.get(res, 'crashes (%s)' % res)
+                chk.violation('a public call with a null / foreign / destroyed / out-of-range argument %s: %s' % (what, name),
+                              {'kind': 'crash', 'engine': 'badargs', 'probe': name, 'result': res, 'how': 'harness/hx_badargs.cpp runs the probe of that name'}, True)
     for l in crashed[:3]:
         chk.violation('the library crashes on an API history (memory safety: no call may crash): ' + l[:300], {'kind': 'crash', 'engine': 'heap', 'lines': [l]}, True)
     for l, why in orafail[:3]:
